@@ -508,15 +508,16 @@ pub fn run_property(subs: &[Sub], prop: &str, tier: &str, seed: u64, root: &Path
         }
     }
 
-    // 3. report
+    // 3. report (a sub-property run on behalf of another property reports under that property's id)
+    let report_as = std::env::var("VERIF_REPORT_AS").unwrap_or_else(|_| prop.to_string());
     let mut known_lines = Vec::new();
     for (sig, (n, ex)) in &total.known_hits {
-        println!("KNOWN-FINDING: property={} {} (met {} times; e.g. {})", prop, sig, n, ex);
+        println!("KNOWN-FINDING: property={} {} (met {} times; e.g. {})", report_as, sig, n, ex);
         known_lines.push(json!({"signature": sig, "count": n, "example": ex}));
     }
     for (p, v) in &violations {
         println!("  [{}] {}: {}", v.sub, v.fail.sig, v.fail.detail);
-        println!("VIOLATION property={} replay={}", prop, p.display());
+        println!("VIOLATION property={} replay={}", report_as, p.display());
     }
     let level = "exploration";
     let mut samples: Vec<Value> = total.samples().into_iter().map(Value::String).collect();
